@@ -759,3 +759,9 @@ fire('C12', 'continuous-delay-per-item-length', 'C12.R', 'continuous_conveyor.py
      lambda p: M.replace_node(p, E_CC, 'ConveyorBelt.put', M.assign_to('delay'), 'delay = item.length * self.capacity / self.speed'))
 silent('C12', 'continuous-delay-commuted',
        lambda p: M.replace_node(p, E_CC, 'ConveyorBelt.put', M.assign_to('delay'), 'delay = self.capacity * self.length / self.speed'))
+silent('C11', 'buffer-can-put-via-occupancy-helper',
+       lambda p: M.replace_node(p, E_BUF, 'Buffer.can_put', lambda n: isinstance(n, ast.Return) and 'reservations_put' in ast.unparse(n),
+                                'return self.capacity - self.occupancy() > len(self.inbuiltstore.reservations_put)'))
+fire('C11', 'buffer-can-put-ge-via-helper (seed C09-a)', 'C11.R1', 'Buffer.can_put',
+     lambda p: M.replace_node(p, E_BUF, 'Buffer.can_put', lambda n: isinstance(n, ast.Return) and 'reservations_put' in ast.unparse(n),
+                              'return self.capacity - self.occupancy() >= len(self.inbuiltstore.reservations_put)'))
